@@ -1414,5 +1414,151 @@ theorem reextentFill_spec (c : Cfg) (hok : c.OK) (i : Nat) (es : List Ext) (s : 
   intro _ s' ⟨h1, h2, h3, h4, h5⟩
   exact ⟨h1, h2, h3, fun _ => h4, h5⟩
 
+/-! ### static_array move construction (noexcept, but allocating) -/
+
+theorem set_append_last {B : List Block} {nb nb' q : Block} :
+    ((B ++ [nb]) ++ [q]).set B.length nb' = (B ++ [nb']) ++ [q] := by
+  rw [List.set_append_left _ _ (by simp), set_last]
+
+theorem allocate_zero (a : AllocId) (s : St) {Q : St → Prop} {T : Prop} :
+    Out (allocate a 0 s) (fun p s' => p = none ∧ s' = s) Q T := by
+  unfold allocate
+  simp only [if_true]
+  exact ⟨rfl, rfl⟩
+
+theorem saMove_spec (c : Cfg) (hok : c.OK) (a : AllocId) (es : List Ext) (s : St) (hG : Good c s)
+    (hfx : (Op.saMove a es).fixedIn c = true) : OpSpec c (.saMove a es) s := by
+  have hfx6 : c.fx6 = true := hfx
+  unfold OpSpec
+  show Out (opSaMove c a es s) _ _ _
+  unfold opSaMove
+  generalize nElems es = n
+  apply Out.bind (build_out (T := s.fuel ≠ none ∧ (Op.saMove a es).isSaMove = true) c a n true 0 s hfx6 (by intro h; cases h))
+  · intro p s1 hb
+    obtain ⟨hnf1, harr1, hcase⟩ := hb
+    rcases hcase with ⟨hn0, hp, hbl⟩ | ⟨nb, hnpos, hp, hbl, hfr, hsz, hc, hba⟩
+    · -- zero elements: nothing is allocated anywhere
+      subst hn0; subst hp
+      apply Out.bind (P := fun q s2 => q = none ∧ s2 = s1) (Q := fun _ => False) _ _ (fun _ h => h.elim)
+      · refine Out.noexcept' (Q := fun _ => False) (T := False) ?_ (fun _ h => False.elim h) (fun h => False.elim h)
+        apply Out.bind (allocate_zero (Q := fun _ => False) a s1) _ (fun _ h => h.elim)
+        intro q s2 ⟨hq, h2⟩; subst hq; subst h2
+        apply Out.bind (readCells_zero (Q := fun _ => False) c none s2) _ (fun _ h => h.elim)
+        intro _ s3 h3; subst h3
+        apply Out.bind (constructAll_zero (Q := fun _ => False) c none 0 s3) _ (fun _ h => h.elim)
+        intro _ s4 h4; subst h4
+        exact Out.pure' ⟨rfl, rfl⟩
+      · intro q s2 ⟨hq, h2⟩; subst hq; subst h2
+        apply Out.bind (destroyAll_zero (Q := fun _ => False) c none s2) _ (fun _ h => h.elim)
+        intro _ s3 h3; subst h3
+        apply Out.bind (deallocate_zero (Q := fun _ => False) c a none s3) _ (fun _ h => h.elim)
+        intro _ s4 h4; subst h4
+        apply Out.bind (destroyAll_zero (Q := fun _ => False) c none s4) _ (fun _ h => h.elim)
+        intro _ s5 h5; subst h5
+        apply Out.mono (deallocate_zero (Q := fun _ => False) c a none s5) _ (fun _ h => h.elim) id
+        intro _ s6 h6; subst h6
+        refine ⟨⟨?_, by rw [harr1]; exact hG.2⟩, hnf1, by rw [harr1], ?_, trivial⟩
+        · show Inv c s6.blocks s6.arrs
+          rw [hbl, harr1]; exact hG.1
+        · intro _ hA
+          show InvA c s6.blocks s6.arrs
+          rw [hbl, harr1]; exact hA
+    · -- n > 0: s holds block B.length; t allocates block B.length + 1 inside a noexcept function
+      subst hp
+      have hlen1 : s1.blocks.length = s.blocks.length + 1 := by rw [hbl]; simp
+      apply Out.bind
+        (P := fun q s3 => q = some s1.blocks.length ∧ NF s1 s3 ∧ s3.arrs = s1.arrs ∧
+          ∃ qb, s3.blocks = s1.blocks ++ [qb] ∧ qb.freed = false ∧ qb.size = n ∧ CellsOK c qb ∧ qb.alloc = a)
+        (Q := fun _ => False) _ _ (fun _ h => h.elim)
+      · refine Out.noexcept' (Q := fun _ => s1.fuel ≠ none) (T := False) ?_
+          (fun _ h => ⟨fun e => h (hnf1 e), rfl⟩) (fun h => False.elim h)
+        apply Out.bind (allocate_out (T := False) a n s1) _ (fun _ h => h.2)
+        intro q s2 hq
+        rcases hq with ⟨h0, _, _⟩ | ⟨_, hq, h2⟩
+        · omega
+        subst hq
+        have hB2 : s2.blocks[s.blocks.length]? = some nb := by
+          rw [h2.blocks, hbl, List.getElem?_append_left (by simp)]; exact List.getElem?_concat_length
+        apply Out.bind (readCells_out (Q := fun _ => s1.fuel ≠ none) c s.blocks.length n s2 hB2 hfr (by omega) hc) _ (fun _ h => h)
+        intro _ s3 h3; subst h3
+        apply Out.bind (constructAll_fresh (T := False) c a n 0 s3 s3 s1.blocks hnpos h2.blocks) _
+          (fun _ h => h2.armed h.1)
+        intro _ s4 ⟨cs', h4, hlen, hlive⟩
+        apply Out.pure'
+        exact ⟨rfl, fun e => h4.fuel (h2.fuel e), by rw [h4.arrs, h2.arrs],
+          { freshBlock a n with cells := cs' }, h4.blocks, rfl, rfl, ⟨hlen, Or.inr hlive⟩, rfl⟩
+      · intro q s3 ⟨hq, hnf3, harr3, qb, hbl3, hqfr, hqsz, hqc, hqa⟩
+        subst hq
+        -- ~t
+        have hB3 : s3.blocks[s1.blocks.length]? = some qb := by rw [hbl3]; exact List.getElem?_concat_length
+        apply Out.bind (destroyAll_out (Q := fun _ => False) c hok.wf s1.blocks.length n s3 hnpos hB3 hqfr hqsz hqc) _ (fun _ h => h.elim)
+        intro _ s4 ⟨cs4, h4, hlen4, hraw4⟩
+        have hbl4 : s4.blocks = s1.blocks ++ [{ qb with cells := cs4 }] := by
+          rw [h4.blocks]; unfold withCells; rw [hbl3]; exact set_last
+        have hB4 : s4.blocks[s1.blocks.length]? = some { qb with cells := cs4 } := by rw [hbl4]; exact List.getElem?_concat_length
+        apply Out.bind (deallocate_out (Q := fun _ => False) c a s1.blocks.length n s4 hnpos hB4 hqfr hqsz hraw4) _ (fun _ h => h.elim)
+        intro _ s5 h5
+        have hbl5 : s5.blocks = (s.blocks ++ [nb]) ++ [freedBlock { qb with cells := cs4 } a] := by
+          rw [h5.blocks, hbl4, set_last, hbl]
+        -- ~s
+        have hB5 : s5.blocks[s.blocks.length]? = some nb := by
+          rw [hbl5, List.getElem?_append_left (by simp)]; exact List.getElem?_concat_length
+        apply Out.bind (destroyAll_out (Q := fun _ => False) c hok.wf s.blocks.length n s5 hnpos hB5 hfr hsz hc) _ (fun _ h => h.elim)
+        intro _ s6 ⟨cs6, h6, hlen6, hraw6⟩
+        have hbl6 : s6.blocks = (s.blocks ++ [{ nb with cells := cs6 }]) ++ [freedBlock { qb with cells := cs4 } a] := by
+          rw [h6.blocks]; unfold withCells; rw [hbl5]; exact set_append_last
+        have hB6 : s6.blocks[s.blocks.length]? = some { nb with cells := cs6 } := by
+          rw [hbl6, List.getElem?_append_left (by simp)]; exact List.getElem?_concat_length
+        apply Out.mono (deallocate_out (Q := fun _ => False) c a s.blocks.length n s6 hnpos hB6 hfr hsz hraw6) _ (fun _ h => h.elim) id
+        intro _ s7 h7
+        have hbl7 : s7.blocks = (s.blocks ++ [freedBlock { nb with cells := cs6 } a]) ++ [freedBlock { qb with cells := cs4 } a] := by
+          rw [h7.blocks, hbl6]; exact set_append_last
+        have harr7 : s7.arrs = s.arrs := by rw [h7.arrs, h6.arrs, h5.arrs, h4.arrs, harr3, harr1]
+        have hI1 : Inv c (s.blocks ++ [freedBlock { nb with cells := cs6 } a]) s.arrs :=
+          Inv.append_freed hG.1 rfl ⟨by show cs6.length = nb.size; rw [hlen6, hsz], hraw6⟩
+        refine ⟨⟨?_, by rw [harr7]; exact hG.2⟩, fun e => h7.fuel (h6.fuel (h5.fuel (h4.fuel (hnf3 (hnf1 e))))), by rw [harr7], ?_, trivial⟩
+        · show Inv c s7.blocks s7.arrs
+          rw [hbl7, harr7]
+          exact Inv.append_freed hI1 rfl ⟨by show cs4.length = qb.size; rw [hlen4, hqsz], hraw4⟩
+        · intro _ hA
+          show InvA c s7.blocks s7.arrs
+          rw [hbl7, harr7]
+          have hA1 : InvA c (s.blocks ++ [freedBlock { nb with cells := cs6 } a]) s.arrs :=
+            InvA.append_block hA hG.1 (fun _ => by show c.eqv a nb.alloc = true; rw [hba]; exact eqv_refl c a)
+          exact InvA.append_block hA1 hI1 (fun _ => by show c.eqv a qb.alloc = true; rw [hqa]; exact eqv_refl c a)
+  · intro s1 ⟨hfu, hcl⟩
+    exact ⟨hfu, by rw [hcl.1], hcl.inv hG.1, by rw [hcl.1]; exact hG.2⟩
+
+/-! ### every operation -/
+
+/-- every operation whose repair is in the code, run from a good state in which it is applicable, with or without an
+    armed fault, meets its specification -/
+theorem run_spec (c : Cfg) (hok : c.OK) (op : Op) (s : St) (hG : Good c s) (happ : op.applicable c s = true)
+    (hfx : op.fixedIn c = true) : OpSpec c op s := by
+  cases op with
+  | ctorDefault i a => exact opCtorDefault_spec c hok i a s hG happ
+  | ctorExt i a es => exact ctorExt_spec c hok i a es s hG happ hfx
+  | ctorFill i a es => exact ctorFill_spec c hok i a es s hG happ hfx
+  | ctorCopy i j => exact ctorCopy_spec c hok i j s hG happ hfx
+  | ctorCopyA i j a => exact ctorCopyA_spec c hok i j a s hG happ hfx
+  | ctorView i j a sl => exact ctorView_spec c hok i j a sl s hG happ hfx
+  | ctorRange i j a => exact ctorRange_spec c hok i j a s hG happ hfx
+  | ctorMove i j => exact ctorMove_spec c hok i j s hG happ
+  | ctorMoveA i j a => exact ctorMoveA_spec c hok i j a s hG happ
+  | dtor i => exact dtor_spec c hok i s hG happ
+  | clear i => exact clear_spec c hok i s hG happ
+  | assignCopy i j => exact assignCopy_spec c hok i j s hG happ hfx
+  | assignMove i j => exact assignMove_spec c hok i j s hG happ
+  | swap i j => exact swap_spec c hok i j s hG happ
+  | reextent i es => exact reextent_spec c hok i es s hG happ hfx
+  | reextentFill i es => exact reextentFill_spec c hok i es s hG happ hfx
+  | reextentRv i es => exact reextentRv_spec c hok i es s hG happ hfx
+  | reshape i es => exact reshape_spec c hok i es s hG happ
+  | assignFill i es => exact assignFill_spec c hok i es s hG happ hfx
+  | assignView i j sl lv => exact assignView_spec c hok i j sl lv s hG happ hfx
+  | assignRange i j => exact assignRange_spec c hok i j s hG happ hfx
+  | viewAssign i j => exact viewAssign_spec c hok i j s hG happ
+  | saMove a es => exact saMove_spec c hok a es s hG hfx
+
 end Ledger
 end Multi
